@@ -141,6 +141,35 @@ def reproduce(pkg, c, timeout_ms=10000):
     return ok, r
 
 
+def _returns_zero(block, ret):
+    """is this Return a literal `return 0`?  (with a defer in the function the literal is stored to the result slot,
+    the defers run, and the slot is loaded back)"""
+    if len(ret['results']) != 1:
+        return False
+    r = ret['results'][0]
+    if r.get('k') == 'const':
+        return str(r.get('i')) == '0'
+    if r.get('k') != 'reg':
+        return False
+    load = [i for i in block['instrs'] if i.get('name') == r['n'] and i['op'] == 'UnOp' and i.get('tok') == '*']
+    if not load:
+        return False
+    addr = load[0]['x']
+    stores = [i for i in block['instrs'] if i['op'] == 'Store' and i['addr'] == addr]
+    return bool(stores) and stores[-1]['val'].get('k') == 'const' and str(stores[-1]['val'].get('i')) == '0'
+
+
+def _pos_key(p):
+    """source position 'file:line[:col]' -> sortable"""
+    parts = str(p).rsplit(':', 2)
+    try:
+        if len(parts) == 3:
+            return (parts[0], int(parts[1]), int(parts[2]))
+        return (parts[0], int(parts[-1]), 0)
+    except ValueError:
+        return (str(p), 0, 0)
+
+
 def jsonable(x):
     if isinstance(x, (bytes, bytearray)):
         try:
@@ -271,6 +300,33 @@ def main(mod):
         for s in r.get('samples', [])[:2]:
             if len(samples) < 12:
                 samples.append(s)
+    # ---- vacuity guard: which return statements of each harness function were reached, over all jobs
+    reached = Counter()
+    for r in results:
+        for fid, pos, n in r.get('ret_sites', []):
+            reached[(fid, pos)] += n
+    vac = []
+    vac_fail = []
+    complete = not a.only and len(results) == len(jobs) and not incon
+    for fid in mod.ROOTS:
+        f = _ENV.prog.funcs.get(fid)
+        if not f or 'blocks' not in f:
+            continue
+        rets = [ins for b in f['blocks'] for ins in b['instrs'] if ins['op'] == 'Return']
+        sites = sorted({ins.get('pos', '?') for ins in rets}, key=_pos_key)
+        # the harness convention: `return 0` = the property held on this path.  The last such statement in source order
+        # is the one behind all the assertions; if no explored path gets there the run has decided nothing.
+        ok_sites = sorted({ins.get('pos', '?') for b in f['blocks'] for ins in b['instrs'] if ins['op'] == 'Return' and _returns_zero(b, ins)}, key=_pos_key)
+        hit = [p_ for p_ in sites if reached.get((fid, p_))]
+        if not hit:
+            continue         # not used in this tier
+        last = ok_sites[-1] if ok_sites else None
+        vac.append(dict(harness=fid.rsplit('.', 1)[-1], return_statements=len(sites), reached=len(hit), success_returns=len(ok_sites),
+                        success_returns_reached=len([p_ for p_ in ok_sites if reached.get((fid, p_))]),
+                        final_success_return_reached=bool(last and reached.get((fid, last))),
+                        paths_through_final_success_return=int(reached.get((fid, last), 0)) if last else 0))
+        if complete and last and not reached.get((fid, last)) and fid.rsplit('.', 1)[-1] not in getattr(mod, 'NO_FINAL_RETURN', ()):
+            vac_fail.append(fid.rsplit('.', 1)[-1])
     known = load_known()
     mine = [f for f in known.get('findings', []) if f['property'] == pid]
     violations = []
@@ -316,7 +372,7 @@ def main(mod):
                             instructions_executed=int(stats.get('instrs', 0)), forks=int(stats.get('forks', 0)), merges=int(stats.get('merges', 0)),
                             functions_encoded=meta.get('functions_encoded', []), stubs=meta.get('stubs', []),
                             bounds=meta.get('bounds', {}).get(a.tier, meta.get('bounds', {})), outside_claim=meta.get('outside_claim', []),
-                            known_findings_matched=sorted(matched), exhaustive=False,
+                            known_findings_matched=sorted(matched), exhaustive=False, reachability=vac,
                             states_rule='states = symbolic path states created (one per harness run plus one per fork); transitions = basic blocks executed symbolically; scheduled_frames = frames pushed on the scheduler',
                             explanation='bounded symbolic execution of the go/ssa form of the listed functions (regenerated from /repo on this run); every job is decided by z3 over all values of its symbolic inputs within the stated bounds'),
               assumptions=meta.get('assumptions', []), wall_s=round(wall, 2), violations=len(violations))
@@ -341,6 +397,9 @@ def main(mod):
     if val_mismatch:
         for m_ in val_mismatch[:5]:
             print('[%s] ENGINE-MISMATCH (validation): %s' % (pid, m_[:600]))
+        sys.exit(3)
+    if vac_fail:
+        print('[%s] INCONCLUSIVE (vacuity): no explored path reaches the last `return 0` of %s - every path left the harness early, so its assertions decided nothing' % (pid, ', '.join(vac_fail)))
         sys.exit(3)
     if incon:
         for r in incon[:5]:
